@@ -731,6 +731,16 @@ func ftGenCertsFlow(byNodeID bool) func(w *ftWorld) ftInst {
 					req.NodeId = "N"
 				}
 				w.own = append(w.own, n.K.KeyID)
+				// this is not the first handshake the process serves on this storage: an earlier one went through,
+				// and the operator has replaced the roots since (what the earlier call saw is history)
+				if _, err := nodetls.GenerateServerCertificates(w.ctx, w.s.Store, req, w.s.Opts()...); err != nil {
+					return fmt.Errorf("warm-up certificate generation: %w", err)
+				}
+				if _, err := rotation.RotateRootCertificates(w.ctx, w.s.Store, w.s.Opts(nodeenrollment.WithReinitializeRoots(true))...); err != nil {
+					return fmt.Errorf("reinitializing roots after the warm-up: %w", err)
+				}
+				nonce = world.RandBytes(nodeenrollment.NonceSize)
+				req.Nonce, req.NonceSignature = nonce, ed25519.Sign(n.K.Priv, nonce)
 				return nil
 			},
 			call: func() error {
